@@ -49,6 +49,20 @@ CHECKS = {
             rapid("scalar", "^TestC02Scalar$", 500000, 4, timeout=3000),
         ],
     },
+    "C03": {
+        "quick": [
+            plain("regress", "^(TestRegressC03|TestC03Completeness|TestKnownC03)$"),
+            rapid("scalar", "^TestC03Scalar$", 60000, 2),
+            rapid("tree", "^TestC03Tree$", 15000, 2),
+            rapid("anyfallback", "^TestC03AnyFallback$", 5000, 1),
+        ],
+        "thorough": [
+            plain("regress", "^(TestRegressC03|TestC03Completeness|TestKnownC03)$"),
+            rapid("scalar", "^TestC03Scalar$", 1000000, 8, timeout=3000),
+            rapid("tree", "^TestC03Tree$", 200000, 8, timeout=3000),
+            rapid("anyfallback", "^TestC03AnyFallback$", 100000, 1),
+        ],
+    },
     "C10": {
         "quick": [
             plain("regress", "^TestRegressC10"),
@@ -93,6 +107,7 @@ CHECKS = {
 LEVELS = {"C10": "fault_enumeration"}
 
 RULES = {
+    "C03": "cases = one row per exported constructor of field.go/array.go/error.go/exp/zapfield (completeness checked against the parsed source at run time) with full-range values and boundary tables, through the value, pointer, slice and zap.Any routes; field lists with nested marshalers; values that zap.Any does not special-case. Oracle = independent recording encoder (exact value, bits, instant+zone, byte-identical slices, explicit null, no call for nil errors), Any vs typed constructor agreement, Equals laws. Non-trivial = boundary/extreme value, pointer, slice, nil pointer, time or Any route. Distinct = distinct (constructor kind, value class, ptr, any) resp. kind multisets. excluded_known counts reflexivity assertions skipped for K1 inputs.",
     "C01": "cases = EncoderConfig (keys empty/hostile/duplicate; built-in, nil, no-op and layout sub-encoders; line endings) x Entry (any int8 level, hostile zones, caller, stack) x 0-3 With rounds x call-site fields from typed Spec trees (all constructor families, zap.Any routing, nesting depth <= 3, failing marshalers, panicking/nil stringers and errors, unencodable reflected values). Non-trivial = has a nested marshaler, namespace, failing member, non-empty With context, nil/no-op/layout sub-encoder or hostile key. Distinct = distinct (config shape, field-kind multiset, depth, fault count, With rounds).",
     "C02": "cases = as C01 with built-in/nil/no-op sub-encoders (D3), each Spec tree carrying its expected ordered tree; plus single-kind scalar batches over full ranges. Non-trivial = extreme numeric (NaN/Inf/uint64>2^63/min-max), invalid UTF-8, nesting depth >= 2 or a namespace inside a nested object (scalar job: time/duration/complex/float32 or extreme). Distinct = distinct (config shape, kind multiset, depth) resp. (kind, time encoder, duration encoder, ptr, any).",
     "C10": "cases = (a) field trees with fault sites (marshaler errors before/between/after members, panicking or nil Stringer/error, nil elements, unencodable reflected values) drawn with 45% probability per container, logged through a tee of JSON, console and observer cores; (b) tees of 1-4 IO cores over multi-syncers of 1-3 scripted sinks plus custom failing cores, per-entry outcome vectors (ok/error/short+error/zero+error, Sync error), 1-6 entries, plain/delegating/nested tee; small shapes (<=2 cores x <=2 sinks x <=2 entries, 4 outcomes) enumerated exhaustively. Non-trivial = (a) >= 2 faults or a fault inside a nested container, (b) >= 2 destinations with a failing one before a healthy one. Distinct = distinct kind multisets+fault depth resp. distinct outcome matrices.",
@@ -111,6 +126,11 @@ ASSUMPTIONS = {
 TRUST = "Trusted base: Go toolchain/runtime, rapid's generators and shrinker, the reference model/oracle code in /verif/harness/props, and the standard-library packages used as reference implementations. Search-based: absence of a counterexample in the generated cases is not a proof."
 
 META = {
+    "C03": {
+        "technique": "property-based testing (rapid): per-constructor full-range generators against an independent recording encoder; differential zap.Any vs typed constructor; algebraic laws of Field.Equals; source-parsing completeness check",
+        "level_text": "Every exported constructor (enumerated from the source at run time; an uncovered one makes the check inconclusive) is driven with full-range and boundary values through the value, pointer, slice, generic and zap.Any routes; an independent ObjectEncoder records what arrives and must see exactly the original value (integers without truncation or sign change, float/complex bits incl. NaN payloads, same instant and zone, byte-identical slices, explicit null for nil pointers, nothing for nil errors). Fields built independently from equal inputs must be Equal in both directions, Equals must be reflexive, symmetric and never panic. Exploration with explicit boundary tables is the fitting level for a per-value property.",
+        "level_note": TRUST + " Known finding K1 (Equals not reflexive for NaN/func carried in an interface) is listed in known_findings.json; such inputs are still generated and checked for delivery, symmetry and no-panic, and are excluded (counted) from the reflexivity/equal-inputs assertion only. Integer width families may differ as long as value and signedness are preserved.",
+    },
     "C10": {
         "technique": "property-based fault injection (rapid): fault sites generated inside Spec trees with exact expected output incl. <key>Error fields; scripted failing sinks/cores with per-entry outcome vectors; exhaustive enumeration of small sink topologies",
         "level_text": "Fault sites (which marshaler/stringer/error/reflected value fails, where and how) and sink outcome vectors are the enumerated dimension: small sink topologies are enumerated completely, larger ones and all field-fault placements are sampled. Each run checks that the call returns, the entry reaches every JSON/console/observer destination exactly once, is well-formed, equals the reference tree (other fields intact, partial value, <key>Error with the injected text) and that the error output carries exactly one report per failing entry naming every failing destination.",
